@@ -237,3 +237,50 @@ def check(case):
     owners = set(int(o) for o in cmp_.loc.owner[cmp_.decided])
     nontrivial = (not rot_id) and (not no_disp) and len(owners) >= 2
     return ok(labels, nontrivial, sig=case_sig(text), counts=counts)
+
+
+# -- deterministic part: every axisymmetric kind x the 24 axis-permuting
+#    proper rotations (the frames the converter re-classifies with special
+#    cases), as a surface-card transformation ---------------------------------
+
+AXIAL_CARDS = {
+    'tx': [0.5, -0.3, 0.2, 2.0, 0.6, 0.4], 'ty': [0.5, -0.3, 0.2, 2.0, 0.6, 0.4],
+    'tz': [0.5, -0.3, 0.2, 2.0, 0.6, 0.4],
+    'k/x': [0.4, 0.2, -0.3, 0.5, 1.0], 'k/y': [0.4, 0.2, -0.3, 0.5, -1.0],
+    'k/z': [0.4, 0.2, -0.3, 0.5], 'kx': [0.7, 2.0, -1.0], 'ky': [0.7, 2.0],
+    'kz': [-0.7, 0.25, 1.0],
+    'c/x': [0.3, -0.6, 1.2], 'c/y': [0.3, -0.6, 1.2], 'c/z': [0.3, -0.6, 1.2],
+    'cx': [1.1], 'cy': [1.1], 'cz': [1.1],
+    'x': [0.5, 1.0, 2.0, 2.5], 'y': [-1.0, 0.5, 1.0, 1.5], 'z': [0.0, 2.0, 1.5, 0.5],
+    'px': [0.7], 'pz': [-0.4], 'sq': [1.0, 0.5, 2.0, 0.0, 0.0, 0.0, -1.0, 0.3, -0.2, 0.1],
+}
+
+
+def axis_rotation_cases():
+    for kind, params in sorted(AXIAL_CARDS.items()):
+        for ri, R in enumerate(gen._PERMS):
+            deck = md.new_deck()
+            spec = md.trspec([0.6, -0.4, 0.9], [float(v) for v in R.reshape(9)])
+            deck['transforms'].append({'id': 3, 'spec': spec})
+            deck['surfaces'].append(md.surf(8, kind, params, tr=3))
+            deck['cells'].append(md.cell(1, 0, None, md.S(-8), imp={'n': 1}))
+            deck['cells'].append(md.cell(2, 0, None, md.S(8), imp={'n': 1}))
+            yield {'deck': deck, 'labels': ['mode:surf-tr', 'kind:' + kind,
+                                            'axis-enumeration'],
+                   'tier': 'quick', 'pseed': 1000 + ri}
+
+
+def extra(tier, seed, stats):
+    found = {}
+    n = 0
+    for case in axis_rotation_cases():
+        out = check(case)
+        n += 1
+        if out.kind == 'violation':
+            found.setdefault(out.bucket + ':axis-enumeration',
+                             (case, out.detail))
+        elif out.nontrivial:
+            stats.counts['extra_nontrivial'] += 1
+    stats.counts['extra_evaluations'] += n
+    stats.counts['axis_enumeration_cases'] = n
+    return found
